@@ -236,7 +236,10 @@ def search(ctx):
 
 
 def replay(path):
-    r = json.loads(open(path).read())
-    print(json.dumps(r.get("what") or r.get("no_longer_checks"))[:3000])
-    print("replay: re-run `VERIF_SEED=%s harness/vcheck.py C05 --tier %s` (cases are regenerated from the seed)" % (r.get("seed"), r.get("tier")))
-    return 1
+    def runner(ctx, c, opts):
+        out, _ = calib.run_real(c, **opts)
+        if isinstance(out, tuple):
+            print("calibration refused:", out[1:])
+            return
+        check_result(ctx, c, out, opts, *knowns())
+    return calib.replay_with_data(path, "C05", runner)
